@@ -31,7 +31,7 @@ ASSUMPTIONS = ["calculate_index is issued only when every reading of the address
 
 def plan(tier):
     if tier == "thorough":
-        return {"shards": 16, "cases": 24000, "shard_timeout_s": 3000, "shard_budget_s": 1500}
+        return {"shards": 16, "cases": 150000, "shard_timeout_s": 3000, "shard_budget_s": 1500}
     return {"shards": 16, "cases": 6000, "shard_timeout_s": 600, "shard_budget_s": 100}
 
 
